@@ -437,6 +437,48 @@ func runPoolOps(cfg poolCfg, ops []poolOp) (tr poolTrace) {
 				outcome = "?"
 			}
 			ev("%s %d -> %s", op.Op, op.W, outcome)
+		case "stress":
+			// op.W goroutines share the pool, each running op.Ms rounds of acquire / use / release (sometimes twice)
+			var swg sync.WaitGroup
+			for g := 0; g < op.W; g++ {
+				swg.Add(1)
+				go func(g int) {
+					defer swg.Done()
+					defer func() {
+						if p := recover(); p != nil {
+							srv.mu.Lock()
+							srv.problem("holder %d panicked while using its handle: %v", g, p)
+							srv.mu.Unlock()
+						}
+					}()
+					rr := NewRng(uint64(g)*7919 + uint64(op.Ms))
+					for i := 0; i < op.Ms; i++ {
+						sctx, cancel := context.WithTimeout(ctx, 2*time.Second)
+						kind := []string{"ok", "ok", "ok", "exc", "cut"}[rr.Intn(5)]
+						qid := fmt.Sprintf("s%d-%d-%s", g, i, kind)
+						if rr.Bool() {
+							_ = pool.Do(sctx, ch.Query{Body: "SELECT 1", QueryID: qid})
+						} else if h, err := pool.Acquire(sctx); err == nil {
+							_ = h.Do(sctx, ch.Query{Body: "SELECT 1", QueryID: qid})
+							if rr.Chance(30) {
+								_ = h.Ping(sctx)
+							}
+							h.Release()
+							if rr.Chance(30) {
+								h.Release()
+							}
+						}
+						cancel()
+					}
+				}(g)
+			}
+			swg.Wait()
+			srv.mu.Lock()
+			if srv.maxOpen > cfg.MaxConns {
+				srv.problem("%d connections were open at once, MaxConns is %d", srv.maxOpen, cfg.MaxConns)
+			}
+			srv.mu.Unlock()
+			ev("stress %d x %d done, dialed=%d", op.W, op.Ms, len(srv.conns))
 		case "sleep":
 			time.Sleep(time.Duration(op.Ms) * time.Millisecond)
 			st := pool.Stat()
@@ -681,6 +723,19 @@ func runC11(c *Ctx) {
 				R.Violate(Violation{Kind: "oracle", Key: "idle-connection-not-destroyed", What: "an idle connection past its idle time and lifetime survived the health checks: " + strings.Join(tr.events, "; "), Case: map[string]any{"config": cfg, "ops": ops, "events": tr.events}})
 			}
 		}
+	}
+	// goroutines sharing the pool
+	for _, mc := range []int{1, 2, 3} {
+		workers, rounds := 6, 40
+		if c.Thorough {
+			workers, rounds = 12, 300
+		}
+		ops := []poolOp{{Op: "stress", W: workers, Ms: rounds}, {Op: "close"}}
+		cfg := poolCfg{MaxConns: mc, LifeMs: 60000, IdleMs: 60000, HealthMs: 5}
+		tr := runPoolOpsIsolated(cfg, ops)
+		R.Case(fmt.Sprintf("stress|%d", mc), true)
+		R.Count("sequence:stress")
+		c11Report(c, cfg, ops, tr)
 	}
 	n := 40
 	if c.Thorough {
